@@ -247,7 +247,8 @@ def _apply_fault(raw, f):
 def run_case(case):
     from bob.utils import hashDirectory
     import bob.archive as A
-    top = common.scratch_dir("c08-%d" % os.getpid())
+    top = common.scratch_case_dir("c08")
+    common.pin_process_nondeterminism(1)
     stats = common.Counter()
     log = []
     viol = None
@@ -262,6 +263,11 @@ def run_case(case):
         src_audit = os.path.join(box, "src", "audit.json.gz")
         _make_audit(src_audit, src)
         audit_bytes = common.read_file(src_audit)
+        # simulated stat clock: tar headers carry the mtimes of directories and of the audit file
+        for r_, ds_, fs_ in os.walk(os.path.join(box, "src")):
+            for n_ in ds_ + ["."]:
+                os.utime(os.path.join(r_, n_), (1_500_000_000, 1_500_000_000))
+        os.utime(src_audit, (1_500_000_000, 1_500_000_000))
         canon_src = treecmp.canon(src)
         hash_src = hashDirectory(src)
         arch = os.path.join(box, "arch")
